@@ -3,7 +3,7 @@
    lexicographic comparison [lex_compare]; values are written to and read back from an actual redb
    database by the harness on every run. *)
 From BS Require Import Impl.Visit Impl.Access Spec.Wire Ref.MetaDefs Proofs.Len Proofs.ImplRefLeaf Proofs.ImplRefTx Proofs.Transfer Proofs.Entries
-  Proofs.SpecLemmas Proofs.RefSpec Proofs.SpecTransfer Proofs.Order.
+  Proofs.SpecLemmas Proofs.RefSpec Proofs.SpecTransfer Proofs.Order Proofs.Examples.
 Open Scope N_scope.
 
 (* as_bytes is the serialized view (AsRef); decoding it returns an equal value *)
@@ -64,3 +64,13 @@ Theorem C20_order_total : forall a b, lex_compare a b = Lt \/ a = b \/ lex_compa
 Proof. exact lex_total. Qed.
 Theorem C20_order_is_bytewise : forall (p : list byte) x y s t, b2n x < b2n y -> lex_compare (p ++ x :: s) (p ++ y :: t) = Lt.
 Proof. exact lex_first_diff. Qed.
+
+(* non-vacuity: the example transaction and an output are parsed and decoded back from their database bytes *)
+Example C20_example :
+  (exists pr h', visit_transaction never (sl 5 (ex_tx_bytes ++ ex_trailing)) [] = (Ok pr, h') /\ bytes (remaining pr) = ex_trailing) /\
+  match parse_txout (sl 2 (enc_txout ex_out1 ++ [x00])) with
+  | Ok pr => db_txout_from_bytes (sl 2 (bytes (to_slice (parsed pr)))) = Ok (parsed pr)
+  | _ => False
+  end /\
+  lex_compare (repeat x00 35 ++ [x01]) (x01 :: repeat x00 35) = Lt.
+Proof. split; [exact ex_tx_visit|split; [vm_compute; reflexivity|vm_compute; reflexivity]]. Qed.
